@@ -193,7 +193,8 @@ def split_answer(ans):
     if not ans.startswith("M "):
         return ans, ""
     m, _, s = ans[2:].partition(" ;; S ")
-    return m, s
+    s, _, v = s.partition(" ;; V ")
+    return m, (s if not v else s + "\x00" + v)
 
 
 def load_known_findings():
